@@ -26,7 +26,7 @@ Trailer(f, n) == CASE f = "rfc" -> <<4, 255>> \o BE32(n)
                    [] f = "v3" -> <<3, 255>> \o BE32(n)
                    [] f = "hdrfirst" -> <<4, 255>> \o BE32(n)
 DigestInputF(f, data, hdr) == (IF f = "hdrfirst" THEN hdr \o data ELSE data \o hdr) \o Trailer(f, Len(hdr))
-DigestInput(data, hdr) == DigestInputF(IF MUTANT = "none" THEN "rfc" ELSE MUTANT, data, hdr)
+DigestInput(data, hdr) == DigestInputF(IF MUTANT \in Framings THEN MUTANT ELSE "rfc", data, hdr)
 
 (* bounded byte domain: the trailer's own bytes are in the alphabet so that confusion is possible *)
 Alphabet == {0, 2, 4, 255}
@@ -37,16 +37,23 @@ Injective == \A d1 \in DataDom, h1 \in HdrDom, d2 \in DataDom, h2 \in HdrDom :
                DigestInput(d1, h1) = DigestInput(d2, h2) => (d1 = d2 /\ h1 = h2)
 ASSUME Injective
 
+(* The digest is SHA-256 whatever the hashed header says: its hash-algorithm octet is opaque signed data, so a signature over  *)
+(* any other algorithm's digest of the same framed bytes is a signature over a different message.                          *)
+HashAlgos == {"sha256", "sha1", "sha224", "sha384", "sha512", "sha3_256", "sha3_512", "md5"}
+HeaderNames == {"sha256", "same", "none"}     \* what the header's hash-algorithm octet names: SHA-256, the algorithm used, or the header is not of that shape
+HashCounts(algo, named) == algo = (IF MUTANT = "header_selects_hash" /\ named = "same" THEN algo ELSE "sha256")
+HashRule == \A a \in HashAlgos, x \in HeaderNames : HashCounts(a, x) <=> a = "sha256"
 HeaderLengths == {0, 1, 2, 6, 35, 255, 256, 257, 65535, 65536, 70000, 16777216, 16843009}
 VARIABLES kind, f, n, d, h, pc
 vars == <<kind, f, n, d, h, pc>>
 Init == /\ pc = "new"
         /\ \/ (kind = "table" /\ f \in Framings /\ n \in HeaderLengths /\ d = <<>> /\ h = <<>>)
            \/ (kind = "digest" /\ f \in Framings /\ n = 0 /\ d \in DataDom /\ h \in HdrDom)
+           \/ (kind = "hash" /\ f \in HashAlgos /\ n = 0 /\ d = <<>> /\ h \in {<<x>> : x \in HeaderNames})
 (* does the impostor coincide with the RFC framing for this header length (for data, header that do not commute)? *)
 SameAsRfc == f # "hdrfirst" /\ Trailer(f, n) = Trailer("rfc", n)
 Emit == /\ pc = "new" /\ pc' = "done" /\ UNCHANGED <<kind, f, n, d, h>>
-        /\ PrintT("@@" \o ToJson(IF kind = "table"
+        /\ PrintT("@@" \o ToJson(IF kind = "hash" THEN [kind |-> kind, hash |-> f, named |-> h[1], counts |-> HashCounts(f, h[1])] ELSE IF kind = "table"
                                    THEN [kind |-> kind, framing |-> f, hdrlen |-> n, same_as_rfc |-> SameAsRfc, trailer |-> Trailer(f, n)]
                                    ELSE [kind |-> kind, framing |-> f, data |-> d, hdr |-> h, bytes |-> DigestInputF(f, d, h)]))
 Next == Emit
@@ -54,5 +61,6 @@ Next == Emit
 HdrFirstDiffers == \A dd \in SeqsUpTo(2), hh \in SeqsUpTo(2) :
                      (DigestInputF("hdrfirst", dd, hh) = DigestInputF("rfc", dd, hh)) <=> (dd \o hh = hh \o dd)
 ASSUME HdrFirstDiffers
-TrailerLen == Len(Trailer("rfc", n)) = 6
+TrailerLen == kind = "hash" \/ Len(Trailer("rfc", n)) = 6
+HashInv == kind = "hash" => (HashCounts(f, h[1]) <=> f = "sha256")
 =============================================================================
